@@ -18,6 +18,7 @@ Proof.
   - apply inv_track; exact I.
   - apply inv_track; exact I.
   - apply inv_validate; exact I.
+  - apply inv_validate_stale; exact I.
   - apply inv_mark_active; exact I.
   - apply (inv_advance s ns I).
   - apply inv_sweep_in; [exact I | apply collects_get_expired; exact I].
@@ -33,6 +34,8 @@ Proof.
   - rewrite (view_track s k k0 I). destruct (regkey_eqb k k0 && enabled (k_tr k)); [|reflexivity].
     destruct (view s k); reflexivity.
   - rewrite view_validate, (view_track s k k0 I). destruct (regkey_eqb k k0 && enabled (k_tr k)); [|reflexivity].
+    destruct (view s k); reflexivity.
+  - rewrite view_validate_stale, (view_track s k k0 I). destruct (regkey_eqb k k0 && enabled (k_tr k)); [|reflexivity].
     destruct (view s k); reflexivity.
   - apply view_mark_active.
   - apply (view_advance s ns k I).
@@ -193,6 +196,10 @@ Proof.
     + intros [= -> ->]. apply (EXT a u eq_refl); [cbn; lia | auto].
     + intros [= <- <-]. apply (NEW _ eq_refl S); reflexivity.
     + intros G. apply (EXT a u G); [cbn; lia | auto].
+  - destruct (starts (ValidateStale k0) k) eqn:S; [destruct (ghost h k) as [[a0 u0]|] eqn:G|].
+    + intros [= -> ->]. apply (EXT a u eq_refl); [cbn; lia | auto].
+    + intros [= <- <-]. apply (NEW _ eq_refl S); reflexivity.
+    + intros G. apply (EXT a u G); [cbn; lia | auto].
   - destruct (regkey_eqb k k0) eqn:E.
     + apply regkey_eqb_eq in E; subst k0. destruct (ghost h k) as [[a0 u0]|] eqn:G; [|discriminate].
       intros [= -> <-]. apply (EXT a u0 eq_refl); [cbn; lia | auto].
@@ -227,7 +234,7 @@ Proof.
   - rewrite elapsed_app in B. rewrite app_assoc, ghost_snoc, elapsed_app.
     destruct (IH h0 k a0 u0 G) as (u & -> & Hu); [destruct B as [B|[B1 B2]]; [left; lia | right; split; [exact B1 | lia]]|].
     destruct x; cbn [gstep elapsed fold_right].
-    1-3: exists u; split; [destruct (starts _ k); rewrite N.add_0_r; reflexivity | exact Hu].
+    1-4: exists u; split; [destruct (starts _ k); rewrite N.add_0_r; reflexivity | exact Hu].
     + destruct (regkey_eqb k k0); [exists true | exists u]; rewrite N.add_0_r; auto.
     + exists u. split; [f_equal; f_equal; lia | exact Hu].
     + exists u. split; [|exact Hu]. rewrite N.add_0_r.
